@@ -49,7 +49,9 @@ MANIFEST = dict(
          "Proved for all inputs: find_lcm_spec (length kept, every input divides its output, every output is the input itself or "
          "< threshold, for every list of positive integers and every threshold), slot arithmetic (den | L -> num*(L/den) is an "
          "integer in [0,L) denoting the same measure fraction), every assembled note line is '#'+3 digits+channel+':'+an even number "
-         "of characters, distinct slots give exactly one object per row (no merge), 3-digit measure and base-36 id codecs inverse; layout injectivity by vm_compute on the regenerated tables. "
+         "of characters, distinct slots give exactly one object per row (no merge), for the whole slot table every row's line length is a "
+         "positive multiple of its denominator so every object sits at a slot denoting exactly its own measure fraction and two "
+         "written objects share (measure, channel, position) only if their rows did; 3-digit measure and base-36 id codecs inverse; layout injectivity by vm_compute on the regenerated tables. "
          "bms_write_denotes is refuted by a machine-checked witness (':.3f' tempo rounding) = KNOWN finding; the whole-file "
          "statement under the guard is checked per run, not proved.",
     note="Trusted: Coq kernel+VM, generator/serialiser, gen_tables, shift_jis and str(float) oracles. Whole-file refinement "
